@@ -3,6 +3,7 @@ CONSTANTS
   Names = {"a", "b"}
   Missing = "zz"
   MaxMods = 2
+  MaxEdges = 9
 INVARIANT ReadyMeansStarted
 INVARIANT RefusedClean
 INVARIANT ShutdownOrder
